@@ -558,6 +558,91 @@ def b_junction_shift(S):
     return out
 
 
+ALL_MODULES = [GENERAL, BAN, PARAMS, NETWORK, AZIMUTH, SUBS, RSAMP, REL, GRID, TVAL, TVALS, TVU, PROX, CLI, LDIST, LINEDATA,
+               "fractopo/analysis/anisotropy.py", "fractopo/analysis/multi_network.py", "fractopo/fractopo_utils.py"]
+
+
+def b_cache_decorated(S):
+    found = []
+    for m in ALL_MODULES:
+        tree = ast.parse(S[m])
+        for n in ast.walk(tree):
+            if isinstance(n, ast.FunctionDef):
+                for d in n.decorator_list:
+                    if ast.unparse(d).replace("general.", "") in ("JOBLIB_CACHE.cache", "JOBLIB_CACHE.cache()"):
+                        found.append(f"{m.split('/')[-1][:-3]}.{n.name}")
+    out = "def cache_decorated : List String := [" + ", ".join(f'"{x}"' for x in sorted(found)) + "]\n\n"
+    # enable rule: Memory(location if <cond> else None)
+    tree = ast.parse(S[GENERAL])
+    asg = [st for st in tree.body if isinstance(st, ast.Assign) and ast.unparse(st.targets[0]) == "JOBLIB_CACHE"]
+    if len(asg) != 1 or not isinstance(asg[0].value, ast.Call) or ast.unparse(asg[0].value.func) != "Memory":
+        raise Untranslatable("JOBLIB_CACHE = Memory(...) not found")
+    loc = asg[0].value.args[0]
+    if not isinstance(loc, ast.IfExp) or ast.unparse(loc.orelse) != "None":
+        raise Untranslatable("cache location is not `<path> if <cond> else None`")
+    cond = ast.unparse(loc.test)
+    if cond != "os.environ.get('FRACTOPO_DISABLE_CACHE') in (None, '0')":
+        raise Untranslatable(f"cache enable condition changed: {cond}")
+    out += "/-- the cache is enabled iff FRACTOPO_DISABLE_CACHE is unset or equal to \"0\" (shape-checked condition) -/\n"
+    out += 'def cache_enabled (disable : Option String) : Bool :=\n  (List.elem disable [none, some "0"])\n'
+    body = ast.unparse(loc.body)
+    if body != "os.environ.get('FRACTOPO_CACHE_PATH', DEFAULT_FRACTOPO_CACHE_PATH)":
+        raise Untranslatable(f"cache path expression changed: {body}")
+    out += 'def cache_path_variable : String := "FRACTOPO_CACHE_PATH"\n'
+    return out
+
+
+def b_grid(S):
+    src = S[GRID]
+    tree = ast.parse(src)
+    fn = find_func(tree, "create_grid")
+    asg = {ast.unparse(st.targets[0]): st for st in fn.body if isinstance(st, ast.Assign) and len(st.targets) == 1}
+    for need in ("rows", "cols", "cell_height", "x_left_origin", "x_right_origin", "y_top_origin", "y_bottom_origin"):
+        if need not in asg:
+            raise Untranslatable(f"create_grid: assignment to {need} not found")
+    if ast.unparse(asg["cell_height"].value) != "cell_width":
+        raise Untranslatable("cell_height is not cell_width (cells are no longer square)")
+    P = {"x_min": "Rat", "y_min": "Rat", "x_max": "Rat", "y_max": "Rat", "cell_width": "Rat"}
+    C = {"cell_height": "cell_width"}
+    T = {"cell_height": "Rat"}
+    out = translate_expression(src, asg["rows"].value, "grid_rows", P, "Int", C, types=T, default_num="Rat")
+    out += "\n" + translate_expression(src, asg["cols"].value, "grid_cols", P, "Int", C, types=T, default_num="Rat")
+    for nm in ("x_left_origin", "x_right_origin", "y_top_origin", "y_bottom_origin"):
+        out += "\n" + translate_expression(src, asg[nm].value, "grid_" + nm, P, "Rat", C, types=T, default_num="Rat")
+    # loop nest: columns outside, rows inside; per-step updates
+    loops = [st for st in fn.body if isinstance(st, ast.For)]
+    if len(loops) != 1 or ast.unparse(loops[0].iter) != "range(cols)":
+        raise Untranslatable("outer loop is not `for _ in range(cols)`")
+    inner = [st for st in loops[0].body if isinstance(st, ast.For)]
+    if len(inner) != 1 or ast.unparse(inner[0].iter) != "range(rows)":
+        raise Untranslatable("inner loop is not `for _ in range(rows)`")
+    def upd(body, var):
+        hits = [st for st in body if isinstance(st, ast.Assign) and ast.unparse(st.targets[0]) == var]
+        return ast.unparse(hits[-1].value) if hits else None
+    expect_outer = {"y_top": "y_top_origin", "y_bottom": "y_bottom_origin"}
+    for v, e in expect_outer.items():
+        first = [st for st in loops[0].body if isinstance(st, ast.Assign) and ast.unparse(st.targets[0]) == v]
+        if not first or ast.unparse(first[0].value) != e:
+            raise Untranslatable(f"column does not restart {v} at {e}")
+    steps = {"y_top": upd(inner[0].body, "y_top"), "y_bottom": upd(inner[0].body, "y_bottom"),
+             "x_left_origin": upd(loops[0].body, "x_left_origin"), "x_right_origin": upd(loops[0].body, "x_right_origin")}
+    want = {"y_top": "y_top - cell_height", "y_bottom": "y_bottom - cell_height", "x_left_origin": "x_left_origin + cell_width", "x_right_origin": "x_right_origin + cell_width"}
+    if steps != want:
+        raise Untranslatable(f"grid stepping changed: {steps}")
+    poly = [n for n in ast.walk(inner[0]) if isinstance(n, ast.Call) and ast.unparse(n.func) == "Polygon"]
+    if len(poly) != 1 or ast.unparse(poly[0].args[0]) != "[(x_left_origin, y_top), (x_right_origin, y_top), (x_right_origin, y_bottom), (x_left_origin, y_bottom)]":
+        raise Untranslatable("cell polygon corners changed")
+    out += "\n/-- loop nest (shape-checked): columns outside, rows inside; a column restarts at the top; steps of one cell width -/\ndef grid_column_major : Bool := true\n"
+    # sample circle radius
+    pfn = find_func(tree, "populate_sample_cell")
+    hits = find_expressions(src, "populate_sample_cell", r"np\.sqrt\(sample_cell_area\) \* [0-9.]+")
+    if len(hits) != 1:
+        raise Untranslatable("sample circle radius expression not found")
+    out += "\n" + translate_expression(src, hits[0], "sample_radius", {"sample_cell_area": "Rat"}, "Rat", {"np.sqrt(sample_cell_area)": "(sqrt sample_cell_area)"},
+                                        types={"np.sqrt(sample_cell_area)": "Rat"}, default_num="Rat").replace("def sample_radius (sample_cell_area : Rat)", "def sample_radius (sqrt : Rat → Rat) (sample_cell_area : Rat)")
+    return out
+
+
 ITEMS: List[Item] = [
     Item("BranchIdentity", BAN, ["C05", "C01"], b_branch_identity, extra_modules=[GENERAL]),
     Item("DegreeToClass", BAN, ["C05", "C01"], b_degree_to_class, extra_modules=[GENERAL]),
@@ -576,6 +661,8 @@ ITEMS: List[Item] = [
     Item("JunctionShift", GENERAL, ["C02", "C16"], b_junction_shift),
     Item("ValidatorTable", TVALS, ["C09", "C13", "C02"], b_validator_table),
     Item("ValidationDefaults", TVAL, ["C10", "C03", "C16"], b_validation_defaults),
+    Item("CacheDecorated", GENERAL, ["C17"], b_cache_decorated, extra_modules=[m for m in ALL_MODULES if m != GENERAL]),
+    Item("Grid", GRID, ["C18"], b_grid),
     Item("RandomRadius", RSAMP, ["C20"], b_random_radius, extra_modules=[GENERAL]),
     Item("AggregateDispatch", SUBS, ["C20"], b_aggregate_dispatch),
 ]
